@@ -34,6 +34,9 @@ def worker(r, t, kind):
         return ["O", "B0", "D:" + payload(t, 0), "R", "R", "T"]
     if kind == "opener":
         return ["O", "B0", "D:" + payload(t, 0), "A", "T"]
+    if kind == "sender":
+        # a proxied stream as the relays use it: Stream::send_data into the outbound channel
+        return ["O", "B0"] + ["S:" + payload(t, k) for k in range(r.randint(1, 3))] + ["R", "T"]
     if kind == "raw":
         return ["W:2:%d:%s" % (40 + t, payload(t, k)) for k in range(r.randint(1, 3))]
     return ["O", "T"]
@@ -48,7 +51,7 @@ def gen_cases(tier, seed):
         cs.append(Case("c%d" % (len(cs) + 1), "conc", toks, kind, nt, {"ntasks": len(progs)}))
 
     def drain(progs):
-        return drain_suffix(len(progs), 8 * max(len(p) for p in progs) + 10)
+        return drain_suffix(len(progs), 8 * max([len(p) for p in progs if not is_pump_prog(p)] + [1]) + 10)
     # systematic: one cause placed at every position of a fixed 2-worker interleaving
     for cause, (tok, follow) in CAUSES.items():
         for mode in ("plain", "start"):
@@ -70,12 +73,26 @@ def gen_cases(tier, seed):
                     base = [1, 2] * 9
                     sched = base[:pos] + [3] * 9 + base[pos:]
                     add(mode, progs, sched + drain(progs), "midburst-fail", True)
+    # the forwarding task (process_stream_data) and senders: one cause at every position of a 3-task interleaving
+    for cause, (tok, follow) in CAUSES.items():
+        for kinds in (("sender", "sender"), ("sender", "writer"), ("sender", "reader")):
+            progs = [[], worker(r, 1, kinds[0]), worker(r, 2, kinds[1]), pump_prog(150)]
+            killer = [tok] + (["B0", "W:2:77:ffff"] if follow else [])
+            progs.append(killer)
+            base = [1, 3, 2, 3] * (8 if tier == "quick" else 14)
+            step = 1 if tier == "thorough" else 3
+            for pos in range(0, len(base) + 1, step):
+                sched = base[:pos] + [4] * len(killer) * 3 + base[pos:]
+                add("plain", progs, sched + drain(progs) + [3] * 40, "systematic-pump-" + cause, pos > 0)
     # random
     n = 600 if tier == "quick" else 15000
     for i in range(n):
         nt = r.choice([1, 2, 2, 3])
         mode = r.choice(["plain", "start"])
-        progs = [[]] + [worker(r, t, r.choice(["writer", "reader", "opener", "raw", "idle"])) for t in range(1, nt + 1)]
+        with_pump = mode == "plain" and r.random() < 0.35
+        progs = [[]] + [worker(r, t, r.choice(["writer", "reader", "opener", "raw", "idle"] + (["sender"] * 4 if with_pump else []))) for t in range(1, nt + 1)]
+        if with_pump:
+            progs.append(pump_prog(200))
         cause = r.choice(list(CAUSES))
         tok, follow = CAUSES[cause]
         killer = [tok] + (["B0", "W:2:77:ffff"] if follow else [])
@@ -90,7 +107,7 @@ def gen_cases(tier, seed):
         sched = [r.randint(1, len(progs) - 1) for _ in range(L)]
         if mode == "plain" and r.random() < 0.7:
             sched = [t if r.random() < 0.85 else 0 for t in sched]
-        add(mode, progs, sched + drain(progs), "random-" + cause, True)
+        add(mode, progs, sched + drain(progs), "random-" + cause + ("-pump" if with_pump else ""), True)
     return cs
 
 
@@ -118,6 +135,13 @@ def oracle(c, ir):
             if pc not in ("done", "recv", "-"):
                 return "the receive task is stuck at %s after the drain" % pc
             continue
+        if t < len(progs) and is_pump_prog([x for x in progs[t] if x != "-"]):
+            # the forwarding task: not a caller. On a live session it idles in its loop; on a dead one it has returned,
+            # or it sits in recv() of the channel for ever (it missed the close notification: a leaked task, recorded
+            # in the evidence, outside the property text) -- but it must not be stuck inside a write or on a lock
+            if pc not in ("done", "pump.wait", "pump.loop", "h.call"):
+                return "the forwarding task is stuck at %s after the drain" % pc
+            continue
         if pc != "done":
             return "task %d never finished: stuck at %s with results %s (a caller blocked forever)" % (t, pc, res)
     if has_cause:
@@ -130,6 +154,8 @@ def oracle(c, ir):
             if t == 0 or t >= len(progs):
                 continue
             prog = [x for x in progs[t] if x != "-"]
+            if is_pump_prog(prog):
+                continue
             if len(res) != len(prog):
                 return "task %d: %d results for %d calls" % (t, len(res), len(prog))
             for call, rr in zip(prog, res):
